@@ -196,3 +196,120 @@ func freshErr(c *ExtCtx, prefix string) Val {
 	c.st.assume("(not (isStatus " + r.T + "))")
 	return r
 }
+
+// ---------- helpers for struct arguments ----------
+
+func (c *ExtCtx) field(p Val, name string) Val {
+	s := structOf(derefType(p.Typ))
+	if s == nil {
+		c.ex.unsupported("external %s: field %s of non-struct", c.name, name)
+		return Val{T: "0", S: "Int"}
+	}
+	pp := p
+	if pp.Root == "" {
+		pp = c.ex.mkVal(p.Typ, p.T)
+	}
+	idx, emb := findField(s, name)
+	if idx < 0 {
+		c.ex.unsupported("external %s: no field %s", c.name, name)
+		return Val{T: "0", S: "Int"}
+	}
+	for _, e := range emb {
+		pp = c.ex.fieldPtr(pp, e)
+	}
+	return c.ex.load(c.st, c.ex.fieldPtr(pp, idx))
+}
+
+func (c *ExtCtx) setField(p Val, name string, v string) {
+	s := structOf(derefType(p.Typ))
+	pp := p
+	if pp.Root == "" {
+		pp = c.ex.mkVal(p.Typ, p.T)
+	}
+	idx, emb := findField(s, name)
+	if idx < 0 {
+		c.ex.unsupported("external %s: no field %s", c.name, name)
+		return
+	}
+	for _, e := range emb {
+		pp = c.ex.fieldPtr(pp, e)
+	}
+	fp := c.ex.fieldPtr(pp, idx)
+	so := sortOf(derefType(fp.Typ))
+	if so == "" {
+		so = "Int"
+	}
+	c.st.write(fp.Arr, so, fp.T, v)
+}
+
+const (
+	pkgStatus = "google.golang.org/grpc/status"
+	pkgIStatus = "google.golang.org/grpc/internal/status"
+	pkgCodes  = "google.golang.org/grpc/codes"
+)
+
+func init() {
+	// ---------- grpc status (read from grpc v1.66.0) ----------
+	ext(pkgStatus+".FromProto", "status.FromProto(p): a *Status carrying p.Code, p.Message, p.Details", func(c *ExtCtx) Val {
+		p := c.args[0]
+		code := c.field(p, "Code").T
+		msg := c.field(p, "Message").T
+		det := c.field(p, "Details").T
+		return c.mk(0, c.st.bind("status", "Int", "(mkStatus "+code+" "+msg+" "+det+")"))
+	})
+	errOf := func(c *ExtCtx) Val { return c.mk(0, "(sErr "+c.args[0].T+")") }
+	ext("(*"+pkgIStatus+".Status).Err", "(*Status).Err(): nil iff code OK (or nil status); else a fresh status error carrying code/message/details", errOf)
+	codeOf := func(c *ExtCtx) Val { return c.mk(0, "(sCode "+c.args[0].T+")") }
+	ext("(*"+pkgIStatus+".Status).Code", "(*Status).Code(): the code; OK for a nil *Status", codeOf)
+	protoOf := func(c *ExtCtx) Val {
+		s := c.args[0]
+		ref := c.ex.allocRef()
+		pv := c.ex.mkVal(c.resType(0), ref)
+		c.ex.zeroObject(c.st, pv)
+		c.setField(pv, "Code", "(sCode "+s.T+")")
+		c.setField(pv, "Message", "(sMsg "+s.T+")")
+		c.setField(pv, "Details", "(sDetails "+s.T+")")
+		out := pv
+		out.T = c.st.bind("proto", "Int", smtIte("(= "+s.T+" 0)", "0", ref))
+		return out
+	}
+	ext("(*"+pkgIStatus+".Status).Proto", "(*Status).Proto(): nil for a nil status, else a fresh *spb.Status copy of code/message/details", protoOf)
+	ext(pkgStatus+".FromError", "status.FromError(e): (nil,true) for nil; status errors give their status and true; other errors give (Unknown, e.Error()) and false", func(c *ExtCtx) Val {
+		e := c.args[0]
+		s := c.fresh(0, "fromerr")
+		ok := c.fresh(1, "fromerr.ok")
+		st := c.st
+		st.assume("(=> (= " + e.T + " 0) (and (= " + s.T + " 0) " + ok.T + "))")
+		st.assume("(=> (and (distinct " + e.T + " 0) (isStatus " + e.T + ")) (and " + ok.T + " (distinct " + s.T + " 0) (= (sCode " + s.T + ") (stCode " + e.T + ")) (= (sMsg " + s.T + ") (stMsg " + e.T + ")) (= (sDetails " + s.T + ") (stDetails " + e.T + "))))")
+		st.assume("(=> (and (distinct " + e.T + " 0) (not (isStatus " + e.T + "))) (and (not " + ok.T + ") (distinct " + s.T + " 0) (= (sCode " + s.T + ") 2) (= (sMsg " + s.T + ") (errText " + e.T + ")) (= (sDetails " + s.T + ") 0)))")
+		return c.tuple(s, ok)
+	})
+	ext(pkgStatus+".FromContextError", "status.FromContextError(e): nil for nil; DeadlineExceeded/Canceled for the context errors; else Unknown; message e.Error()", func(c *ExtCtx) Val {
+		e := c.args[0]
+		s := c.fresh(0, "fromctxerr")
+		st := c.st
+		dl := c.ex.sentinel(st, "context", "DeadlineExceeded")
+		cn := c.ex.sentinel(st, "context", "Canceled")
+		st.assume("(= (= " + s.T + " 0) (= " + e.T + " 0))")
+		st.assume("(=> (distinct " + e.T + " 0) (and (= (sMsg " + s.T + ") (errText " + e.T + ")) (= (sDetails " + s.T + ") 0) (= (sCode " + s.T + ") (ite (errIs " + e.T + " " + dl + ") 4 (ite (errIs " + e.T + " " + cn + ") 1 2)))))")
+		return s
+	})
+	ext(pkgStatus+".Error", "status.Error(c,msg) == New(c,msg).Err()", func(c *ExtCtx) Val {
+		return c.mk(0, c.st.bind("sterr", "Int", "(sErr (mkStatus "+c.args[0].T+" "+c.args[1].T+" 0))"))
+	})
+	ext("("+pkgCodes+".Code).String", "codes.Code.String(): uninterpreted codeString(c); codeString(OK) == \"OK\"", func(c *ExtCtx) Val {
+		return c.mk(0, "(codeString "+c.args[0].T+")")
+	})
+}
+
+// sentinel returns the value of an error-typed package variable of a dependency.
+func (ex *Exec) sentinel(st *State, pkg, name string) string {
+	g := ex.findGlobal(pkg, name)
+	if g == nil {
+		ex.unsupported("sentinel %s.%s not found", pkg, name)
+		return "0"
+	}
+	ga := ex.globalAddr(g)
+	v := ex.load(st, ga)
+	return v.T
+}
